@@ -6,7 +6,8 @@
    `sane_b f` (decidable; evaluated on every observed workspace by the correspondence) says every
    file of f is reachable through directories — true of every real tree. *)
 From RipV Require Import Base.Prelude Base.Fs Model.Paths Model.Checkpoint Proofs.PathsProofs Proofs.CheckpointProofs
-  Proofs.AutoCoverProofs Gen.AutoCover.
+  Proofs.AutoCoverProofs Proofs.CheckpointMultiProofs Gen.AutoCover.
+Require Import Coq.Strings.String.
 
 (* For every workspace f, every list of requested path strings, EVERY later workspace f2 (whatever
    happened in between) : if rewind succeeds then every covered path that was a file is readable with
@@ -167,6 +168,95 @@ Example c14_ex_auto_write_undone :
   /\ exists f', write_tool expected_tool_steps x_ws6 x_report corr_ext 0 x_data = (f', None)
                 /\ file_at f' [x_report] = Some x_data /\ rewind f' x_ck6 = (x_ws6, None).
 Proof. exact ex_auto_write_undone. Qed.
+
+(* ---------- "all orders of multiple checkpoints and rewinds" ----------
+   A session is any list of: take a checkpoint of some paths (HCreate; a refused request leaves none), rewind to
+   the i-th checkpoint taken so far (HRewind; it may succeed or fail), anything else that happens to the
+   workspace (HEdit g: it becomes g, any g in which every file is reachable).  run_hist returns the final workspace
+   and, per checkpoint taken, its entries and the workspace it was taken from.  After ANY session, a rewind to ANY
+   checkpoint taken so far either succeeds - every file that checkpoint covers has exactly the bytes (or the
+   absence) it had in the workspace the checkpoint was taken from, and no uncovered file changes - or fails and
+   leaves every file as it was. *)
+Theorem c14_multi : forall (root : str) (f0 : fs) (h : list hop) (f : fs) (cks : list (list entry * fs)),
+  sane_b f0 = true -> hist_sane h = true -> run_hist root f0 [] h = (f, cks) ->
+  forall (i : nat) (ck : list entry) (fi f3 : fs) (r : option N),
+  nth_error cks i = Some (ck, fi) -> rewind f ck = (f3, r) ->
+  match r with
+  | None =>
+    (forall rel saved, In (rel, saved) ck ->
+       match saved with
+       | Some b => os_read fi (tgt_of rel) = Ok b /\ os_read f3 (tgt_of rel) = Ok b
+       | None => os_exists fi (tgt_of rel) = false /\ file_at f3 (key rel) = None
+       end)
+    /\ (forall q, (forall rel saved, In (rel, saved) ck -> key rel <> q) -> file_at f3 q = file_at f q)
+  | Some _ => forall q, file_at f3 q = file_at f q
+  end.
+Proof. exact multi. Qed.
+Print Assumptions c14_multi.
+
+(* a session with two checkpoints, edits in between, rewinds to the second, the first, the second again; then a
+   rewind to the first: b.txt, absent when the first checkpoint was taken, is absent again *)
+Example c14_ex_multi :
+  sane_b m_f0 = true /\ hist_sane m_hist = true
+  /\ exists f cks ck0 ck1, run_hist w_root m_f0 [] m_hist = (f, cks)
+       /\ nth_error cks 0 = Some (ck0, m_f0) /\ nth_error cks 1 = Some (ck1, m_f1)
+       /\ file_at f [m_a] = Some (bs "a0"%string) /\ file_at f [m_b] = Some (bs "b1"%string)
+       /\ exists f3, rewind f ck0 = (f3, None) /\ file_at f3 [m_b] = None.
+Proof. exact ex_multi. Qed.
+
+(* ---------- the store side ----------
+   The store lies inside the workspace, so a stored copy can be changed or removed between create and rewind
+   (`store` = the copies that differ now from what create wrote; `stored st rel b` = what rewind reads for a file
+   recorded with bytes b).  rewind_st true = rewind as repaired (138f7db): the copy it reads is compared with the
+   recorded sha256 (idealised as collision free).  A rewind that SUCCEEDS has the conclusion of c14_rewind_exact,
+   whatever happened to the store ... *)
+Theorem c14_rewind_store_verified : forall (f : fs) (root : str) (raws : list str) (ck : list entry) (st : store) (f2 f3 : fs),
+  create f root raws = Ok ck -> sane_b f2 = true -> rewind_st true st f2 ck = (f3, None) ->
+  (forall rel saved, In (rel, saved) ck ->
+     match saved with
+     | Some b => os_read f (tgt_of rel) = Ok b /\ os_read f3 (tgt_of rel) = Ok b
+     | None => os_exists f (tgt_of rel) = false /\ file_at f3 (key rel) = None
+     end)
+  /\ (forall q, (forall rel saved, In (rel, saved) ck -> key rel <> q) -> file_at f3 q = file_at f2 q).
+Proof. exact rewind_st_verified_exact. Qed.
+Print Assumptions c14_rewind_store_verified.
+
+(* ... and a rewind that FAILS - at any step, also because a stored copy is gone or does not match its recorded
+   hash (with or without the comparison) - leaves every file of the workspace as it was *)
+Theorem c14_rewind_store_failure_restores : forall (v : bool) (st : store) (f : fs) (root : str) (raws : list str) (ck : list entry) (f2 f3 : fs) (e : N),
+  create f root raws = Ok ck -> sane_b f = true -> sane_b f2 = true -> rewind_st v st f2 ck = (f3, Some e) ->
+  forall q, file_at f3 q = file_at f2 q.
+Proof. exact rewind_st_failure_restores_b. Qed.
+Print Assumptions c14_rewind_store_failure_restores.
+
+(* with an intact store rewind_st is the rewind of the theorems above *)
+Theorem c14_rewind_store_intact : forall (v : bool) (st : store) (f : fs) (ck : list entry),
+  (forall rel b, In (rel, Some b) ck -> stored st rel b = Some b) -> rewind_st v st f ck = rewind f ck.
+Proof. exact rewind_st_intact. Qed.
+Print Assumptions c14_rewind_store_intact.
+
+(* before the repair the recorded hash was never looked at: a stored copy overwritten through the write tool was
+   restored as if it were the checkpointed content and the rewind reported success (genuine defect S10i, replayed
+   on the real tool; corpus/C14/s10i_tampered_store_copy.json) *)
+Theorem c14_rewind_store_unverified_refuted :
+  exists f root raws ck st f2 f3 rel b b',
+    create f root raws = Ok ck /\ sane_b f2 = true /\ rewind_st false st f2 ck = (f3, None)
+    /\ In (rel, Some b) ck /\ os_read f3 (tgt_of rel) = Ok b' /\ b' <> b.
+Proof. exact rewind_store_unverified_refuted. Qed.
+Print Assumptions c14_rewind_store_unverified_refuted.
+
+(* this run's /repo compares the hash between reading the stored copy and touching the target (Gen/AutoCover.v) *)
+Theorem c14_repo_store_wf : store_wf gen_restore_order = true.
+Proof. exact gen_store_ok. Qed.
+Print Assumptions c14_repo_store_wf.
+
+(* a tampered store on which the repaired rewind fails and changes nothing while the unrepaired one restores the forged bytes *)
+Example c14_ex_tampered_store :
+  create m_f0 w_root [m_a] = Ok s_ck /\ sane_b s_later = true
+  /\ rewind_st false s_store s_later s_ck = (s_forged, None)
+  /\ os_read s_forged (tgt_of m_a) = Ok (bs "forged"%string)
+  /\ exists e, rewind_st true s_store s_later s_ck = (s_later, Some e).
+Proof. exact unverified_restores_forged. Qed.
 
 (* the hypotheses are satisfiable: a create / edit / rewind round trip *)
 Example c14_ex_round_trip :
